@@ -63,6 +63,21 @@ class SimInterp(DexInterp):
         if isinstance(s, ast.FunctionDef):
             env[s.name] = LocalFunc(s, env, func)
             return
+        if isinstance(s, ast.Delete):
+            for t in s.targets:
+                if isinstance(t, ast.Subscript):
+                    o = self.eval(t.value, env, func)
+                    k = _const(self.eval(t.slice, env, func))
+                    if isinstance(o, (dict, list)):
+                        try:
+                            del o[k]
+                        except (KeyError, IndexError) as ex:
+                            raise Raised(type(ex).__name__, s)
+                        continue
+                    raise AnalysisError("%s: del on a non-concrete container" % func.loc(s))
+                if isinstance(t, ast.Name):
+                    env.pop(t.id, None)
+            return
         if isinstance(s, ast.AugAssign) and isinstance(s.op, ast.Add):
             cur = self.eval(ast.copy_location(_load(s.target), s.target), env, func)
             if isinstance(cur, list):
@@ -261,6 +276,19 @@ class SimInterp(DexInterp):
                         return recv.get(k_, args[1] if len(args) > 1 else None)
                     except TypeError:
                         pass
+            if name == "pop" and args:
+                k_ = _const(args[0])
+                try:
+                    if len(args) > 1:
+                        return recv.pop(k_, args[1])
+                    if k_ in recv:
+                        return recv.pop(k_)
+                    raise Raised("KeyError", e)
+                except TypeError:
+                    raise AnalysisError("%s: dict.pop with an unhashable abstract key" % func.loc(e))
+            if name == "clear" and not args:
+                recv.clear()
+                return None
             if name in ("items", "values", "keys") and not args:
                 return [tuple(x) if name == "items" else x for x in getattr(recv, name)()]
             if name == "setdefault" and len(args) == 2:
